@@ -209,7 +209,9 @@ pub fn pathfs(args: &Args) {
         let dest = root.join("a").join("b").join("dest");
         std::fs::create_dir_all(&dest).unwrap();
         for (i, d) in [jail.path().to_path_buf(), jail.path().join("r0"), jail.path().join("r0").join("r1"), root.clone(), root.join("a"), root.join("a").join("b")].iter().enumerate() {
-            std::fs::write(d.join("canary"), format!("canary{}", i)).unwrap();
+            // the canaries carry the name that the grammar uses for plain segments, so that an escaping
+            // location of the grammar can hit an existing file outside the destination directory
+            std::fs::write(d.join("n1"), format!("canary{}", i)).unwrap();
         }
         std::fs::create_dir_all(root.join("outside")).unwrap();
         std::fs::write(root.join("outside").join("victim"), "victim").unwrap();
